@@ -14,13 +14,32 @@ from vlib.common import COQ  # noqa: E402
 def main():
     t0 = time.time()
     order = [l.strip() for l in (COQ / "STATIC").read_text().splitlines() if l.strip() and not l.startswith("#")]
+    # de-duplicate, keep first occurrence
+    seen = set()
+    order = [f for f in order if not (f in seen or seen.add(f))]
+    missing = [f for f in order if not (COQ / f).exists()]
+    if missing:
+        print("STATIC lists missing files:", missing)
+        return 1
     with coqrun.BuildLock():
-        for f in order:
-            r = coqrun.coqc(COQ / f, timeout=900)
-            print(f"{f}: {'ok' if r['ok'] else 'FAIL'} {r['secs']:.1f}s", flush=True)
-            if not r["ok"]:
-                print(r["out"][-3000:])
-                return 1
+        # parallel build with real dependency tracking (full .vo, no -vos): coq_makefile + make -j
+        proj = COQ / "_CoqProject.static"
+        proj.write_text("-Q . Verif\n-arg -w -arg -notation-overridden,-deprecated-hint-without-locality,-unusable-identifier\n"
+                        + "\n".join(order) + "\n")
+        r = subprocess.run(["coq_makefile", "-f", proj.name, "-o", "Makefile.static"], cwd=str(COQ), capture_output=True, text=True)
+        ok = r.returncode == 0
+        if ok:
+            r = subprocess.run(["timeout", "3000", "make", "-f", "Makefile.static", "-j", "8"], cwd=str(COQ), capture_output=True, text=True)
+            ok = r.returncode == 0
+            print((r.stdout + r.stderr)[-1500:], flush=True)
+        if not ok:
+            print("parallel build failed; falling back to the sequential build", flush=True)
+            for f in order:
+                r2 = coqrun.coqc(COQ / f, timeout=900)
+                print(f"{f}: {'ok' if r2['ok'] else 'FAIL'} {r2['secs']:.1f}s", flush=True)
+                if not r2["ok"]:
+                    print(r2["out"][-3000:])
+                    return 1
     # optional per-check prebuild (generated models + their proofs), in parallel
     ready = (HERE / "READY").read_text().split() if (HERE / "READY").exists() else []
     procs = []
